@@ -237,6 +237,9 @@ def configs(tier):
                 out.append(dict(case='gen', gen='random', n_rdm=n_rdm, n_cond=3 if quick else n_cond, rgroups=None,
                                 pgroups=None, gkind='int', container='array', n_test_rdm=ntr, n_test_pattern=ntp,
                                 n_cv=1, rby='subj', pby='grp'))
+    # folds too small to evaluate (exactly two conditions) must be marked NaN, the others evaluated
+    out.append(dict(case='leak', gen='k_fold_pattern', n_rdm=2, n_cond=7, rgroups=[0, 1], pgroups=None, gkind='int',
+                    container='array', positive=True, k=3))
     # leakage
     for gen, kw in [('k_fold_pattern', dict(k=2)), ('loo_rdm', dict()), ('k_fold', dict(k=2, k_rdm=2))]:
         out.append(dict(case='leak', gen=gen, n_rdm=3, n_cond=6, rgroups=[0, 1, 2], pgroups=None, gkind='int',
